@@ -19,7 +19,23 @@ type CoqFile struct {
 	header string
 	strs   map[string]string
 	order  []string
+	terms  map[string]string
+	tdefs  bytes.Buffer
 	body   bytes.Buffer
+}
+
+// Intern gives a (large, often repeated) term a name of its own: one Definition per distinct text.
+func (c *CoqFile) Intern(prefix, typ, term string) string {
+	if c.terms == nil {
+		c.terms = map[string]string{}
+	}
+	if n, ok := c.terms[term]; ok {
+		return n
+	}
+	n := prefix + strconv.Itoa(len(c.terms))
+	c.terms[term] = n
+	fmt.Fprintf(&c.tdefs, "Definition %s : %s := %s.\n", n, typ, term)
+	return n
 }
 
 func NewCoqFile(header string) *CoqFile {
@@ -53,7 +69,7 @@ func (c *CoqFile) Printf(format string, args ...interface{}) {
 	fmt.Fprintf(&c.body, format, args...)
 }
 
-func (c *CoqFile) Size() int { return c.body.Len() }
+func (c *CoqFile) Size() int { return c.body.Len() + c.tdefs.Len() }
 
 func (c *CoqFile) Write(path string) error {
 	var out bytes.Buffer
@@ -62,6 +78,7 @@ func (c *CoqFile) Write(path string) error {
 	for i, s := range c.order {
 		fmt.Fprintf(&out, "Definition s%d : string := %s%%string.\n", i, coqLit(s))
 	}
+	out.Write(c.tdefs.Bytes())
 	out.Write(c.body.Bytes())
 	return os.WriteFile(path, out.Bytes(), 0o644)
 }
